@@ -19,8 +19,9 @@ import FV.Proofs.Spectral
   the winning trial (`die_post`).  The harness watches every `normalize` call of its runs for entries in that
   region (none in > 10^7 calls) and exhibits the escape at function level.
 
-  Admissibility (`Admissible`: ≥ 4 movable modules, every module on some net, every disc fits the die): only
-  "discs fit" is needed for the post-condition; "every module on a net" is what makes the centroid step total
+  Admissibility (`Admissible`: ≥ 4 movable modules, every module on some net, every MOVABLE disc fits the die
+  — `≤`, no margin: a disc that fills the die within ~1e-3·size makes the floating-point run raise, finding
+  `C14-near-filling-disc`; the theorems, conditional on `.ok`, are unaffected): only "discs fit" is needed for the post-condition; "every module on a net" is what makes the centroid step total
   (`centroids_return`).  That the run returns at all (orthogonality `assert`, non-zero denominators of the
   power iteration) is NOT proved: every theorem is conditional on `.ok`, and non-returning runs on admissible inputs
   are searched for by the harness (reported as `operation-raised`).
@@ -112,7 +113,8 @@ theorem die_disc_inside_partial (o : Ops α) (adj : List (List (Edge α))) (mass
     (h : spectralLayoutDie o adj mass W H init0 init1 fixed draws maxIter = .ok r)
     (hl0 : init0.length = adj.length) (hl1 : init1.length = adj.length) (hlm : mass.length = adj.length)
     (hsqrt : ∀ x, 0 ≤ o.sqrt x)
-    (hfit : ∀ j, j < adj.length → vat (radii o mass) j ≤ W / 2 ∧ vat (radii o mass) j ≤ H / 2)
+    (hfit : ∀ j, j < adj.length → fixedAt fixed j = false →
+      vat (radii o mass) j ≤ W / 2 ∧ vat (radii o mass) j ≤ H / 2)
     (i : Nat) (hi : i < adj.length) (hf : fixedAt fixed i = false)
     (dX : delta < |vat r.preX i|) (dY : delta < |vat r.preY i|) :
     DiscInDie W H (vat r.xs i + W / 2) (vat r.ys i + H / 2) (vat (radii o mass) i) := by
@@ -127,10 +129,10 @@ theorem die_disc_inside_partial (o : Ops α) (adj : List (List (Edge α))) (mass
   have hrad : 0 ≤ vat (radii o mass) i := by
     unfold radii; rw [vat_map _ _ _ (by rw [hlm]; exact hi)]; exact hsqrt _
   have bx := normalize_bound r.preX _ fixed r.xs hX
-    (fun j hj _ _ => by rw [hspan W j (by rw [← hpx]; exact hj)]; linarith [(hfit j (by rw [← hpx]; exact hj)).1])
+    (fun j hj hjf _ => by rw [hspan W j (by rw [← hpx]; exact hj)]; linarith [(hfit j (by rw [← hpx]; exact hj) hjf).1])
     i (by rw [hpx]; exact hi) hf dX
   have by' := normalize_bound r.preY _ fixed r.ys hY
-    (fun j hj _ _ => by rw [hspan H j (by rw [← hpy]; exact hj)]; linarith [(hfit j (by rw [← hpy]; exact hj)).2])
+    (fun j hj hjf _ => by rw [hspan H j (by rw [← hpy]; exact hj)]; linarith [(hfit j (by rw [← hpy]; exact hj) hjf).2])
     i (by rw [hpy]; exact hi) hf dY
   rw [hspan W i hi] at bx
   rw [hspan H i hi] at by'
@@ -302,8 +304,9 @@ structure Admissible (o : Ops α) (mods : List (SMod α β)) (nets : List (SNet 
   movable : 4 ≤ (mods.filter fun m => !m.fixed).length
   /-- every module is on some net -/
   onNet : ∀ i, i < mods.length → ∃ e ∈ nets, i ∈ e.pins
-  /-- every disc fits the die -/
-  fits : ∀ m ∈ mods, o.sqrt (m.mass / o.pi) ≤ W / 2 ∧ o.sqrt (m.mass / o.pi) ≤ H / 2
+  /-- the disc of every MOVABLE module fits the die (fixed modules are not placed: `normalize` ignores them, so
+      a fixed macro may be longer than the die is high) -/
+  fits : ∀ m ∈ mods, m.fixed = false → o.sqrt (m.mass / o.pi) ≤ W / 2 ∧ o.sqrt (m.mass / o.pi) ≤ H / 2
 
 /-- HEADLINE (`_partial`: the `1e-9` escape is a hypothesis, see the header).  For EVERY draw list, trial count and
     iteration bound, on an admissible input: when the run returns `out` together with the record `b` of its winning
@@ -329,11 +332,12 @@ theorem layout_disc_inside_partial (o : Ops α) (mods : List (SMod α β)) (nets
   have hd := die_disc_inside_partial o adj _ W H _ _ _ dr maxIter b hb
     (by rw [initCentres_length, hal]) (by rw [initCentres_length, hal]) (by simp [hal]) hsqrt
     (by
-      intro j hj
+      intro j hj hjf
       rw [hal] at hj
       have hmj : mods[j]? = some mods[j] := List.getElem?_eq_getElem hj
       rw [hrad j _ hmj]
-      exact hadm.fits _ (List.getElem_mem hj))
+      rw [fixedAt_map mods j _ hmj] at hjf
+      exact hadm.fits _ (List.getElem_mem hj) hjf)
     i hil (by rw [fixedAt_map mods i m hi]; exact hf) dX dY
   rw [hrad i m hi] at hd
   exact ⟨m', _, a1, hpos, hd⟩
@@ -386,7 +390,7 @@ example : (spectralLayout opsQ modsQ netsQ 10 8 2 drawsQ 2).toBool = true := by 
 example : (spectralLayoutTrace opsQ modsQ netsQ 10 8 2 drawsQ 2).toBool = true := by decide +kernel
 
 /-- … on an admissible input … -/
-example : Admissible opsQ modsQ netsQ (10 : Rat) 8 where
+theorem modsQ_admissible : Admissible opsQ modsQ netsQ (10 : Rat) 8 where
   movable := by decide
   onNet := by
     intro i hi
@@ -397,7 +401,7 @@ example : Admissible opsQ modsQ netsQ (10 : Rat) 8 where
     | 2, _ => exact ⟨⟨[2, 3], 1⟩, by simp [netsQ], by simp⟩
     | 3, _ => exact ⟨⟨[2, 3], 1⟩, by simp [netsQ], by simp⟩
     | 4, _ => exact ⟨⟨[1, 2, 4], 2⟩, by simp [netsQ], by simp⟩
-  fits := by intro m hm; simp [opsQ]; norm_num
+  fits := by intro m hm _; simp [opsQ]; norm_num
 
 /-- … and no movable coordinate of the winning trial is in the `1e-9` region (so the escape hypothesis of the
     headline theorem is met by every movable module of this run). -/
@@ -405,6 +409,16 @@ example : (match spectralLayoutTrace opsQ modsQ netsQ 10 8 2 drawsQ 2 with
     | .ok (_, b) => (List.range 4).all fun i =>
         decide ((delta : Rat) < |vat b.preX i|) && decide ((delta : Rat) < |vat b.preY i|)
     | .error _ => false) = true := by decide +kernel
+
+/-- the headline theorem applied to this run (its three hypotheses are the facts checked by the `decide +kernel`
+    examples above): module 0 of the output sits where its disc is inside the 10 × 8 die. -/
+example (out : List (SMod Rat Unit)) (b : DieResult Rat)
+    (h : spectralLayoutTrace opsQ modsQ netsQ 10 8 2 drawsQ 2 = .ok (out, b))
+    (dX : (delta : Rat) < |vat b.preX 0|) (dY : (delta : Rat) < |vat b.preY 0|) :
+    ∃ (m' : SMod Rat Unit) (p : Rat × Rat), out[0]? = some m' ∧ Position m' p ∧
+      DiscInDie 10 8 p.1 p.2 (opsQ.sqrt ((3 : Rat) / opsQ.pi)) :=
+  layout_disc_inside_partial opsQ modsQ netsQ 10 8 2 drawsQ 2 out b h (fun _ => by simp [opsQ]) modsQ_admissible
+    0 ⟨none, 3, false, false, false, [], ()⟩ rfl rfl dX dY
 
 end Examples
 
